@@ -136,6 +136,46 @@ class FailingOut(io.StringIO):
         return super().write(text)
 
 
+class BufferedOut:
+    """a BLOCK-BUFFERED text stream over a pipe: what the windows write is judged by the bytes that have reached the
+    descriptor, not by what sits in the stream object's buffer (a terminal sees only flushed output)"""
+    fail_in = None
+
+    def __init__(self, size_fd):
+        self.fd = size_fd                       # blessed asks this descriptor for the terminal size
+        self.r, w = os.pipe()
+        os.set_blocking(self.r, False)
+        self.f = os.fdopen(w, "w", buffering=65536)
+        self.seen = ""
+
+    def fileno(self):
+        return self.fd
+
+    def write(self, text):
+        return self.f.write(text)
+
+    def flush(self):
+        self.f.flush()
+
+    def getvalue(self):
+        while True:
+            try:
+                data = os.read(self.r, 65536)
+            except BlockingIOError:
+                break
+            if not data:
+                break
+            self.seen += data.decode("utf-8", "replace")
+        return self.seen
+
+    def close(self):
+        for fn in (self.f.close, lambda: os.close(self.r)):
+            try:
+                fn()
+            except OSError:
+                pass
+
+
 class OsShim:
     """records os.pipe() calls of curtsies.input so that real descriptors can be named (and leaks closed afterwards)"""
 
@@ -380,6 +420,11 @@ def corpus_cases():
             out.append(dict(base, main=1, sig0="d", toks=["(~" + top[1:], ")"] + env + ["(=0", ")"]))
             out.append(dict(base, main=1, sig0="d", toks=[top, ")", "(~=0", ")"] + env + ["(=0", ")"]))
         out.append(dict(base, main=1, sig0="d", toks=[top, ")", "(~=0", "!", ")"]))
+    # a block-buffered out_stream observed at the descriptor: what the terminal has SEEN after leaving (seeded C12-r8m2: the
+    # base window's __exit__ writes normal_cursor without flushing)
+    for top in ("(F0", "(F1", "(C00", "(C10", "(C11"):
+        for body in ([], ["r"], ["r", "!"]):
+            out.append(dict(base, main=1, sig0="d", buffered=1, toks=[top] + body + [")"]))
     # renders (0..2) on terminals of every size, in both window classes, both hide_cursor values, left normally / by exception:
     # the cursor must be visible after leaving (seeded C12-r4m1: an early return on a 0-size terminal skips normal_cursor)
     for top in ("(F0", "(F1", "(C00", "(C10", "(C01", "(C11"):
@@ -460,8 +505,11 @@ class Runner:
         fcntl.fcntl(self.slave, fcntl.F_SETFL, fl)
         self.fl0 = fcntl.fcntl(self.slave, fcntl.F_GETFL)
         self.in_stream = PtyIn(self.slave)
-        self.out = FailingOut()
-        self.out.fd = self.slave
+        if c.get("buffered"):
+            self.out = BufferedOut(self.slave)
+        else:
+            self.out = FailingOut()
+            self.out.fd = self.slave
         fcntl.ioctl(self.slave, termios.TIOCSWINSZ, struct.pack("HHHH", 4, 12, 0, 0))
         self.user_pipe = None
         self.old_sig = signal.getsignal(signal.SIGINT)
@@ -485,6 +533,8 @@ class Runner:
 
     def teardown(self):
         cinput.os = self._real_os
+        if isinstance(self.out, BufferedOut):
+            self.out.close()
         try:
             if self.case["wake0"]:
                 signal.set_wakeup_fd(self.old_wake if self.old_wake is not None else -1)
